@@ -54,6 +54,10 @@ func (cl Serializer) DecodeDnsResponse(msg *dns.Msg) (Response, error) {
 
 // DecodeDnsResponse will take a DNS message and decode it into one of the DNS response object
 func (cl Serializer) DecodeDnsResponseWithParams(msg *dns.Msg, downstream enc.Encoder) (Response, error) {
+	if downstream == nil {
+		// No downstream codec has been negotiated yet: the server answers in Base32 until it is told otherwise
+		downstream = enc.Base32Encoding
+	}
 	data := util.UnwrapDnsResponse(msg, cl.Domain)
 	if len(data) == 0 {
 		return nil, errors.Errorf("Invalid response from server: no data (rcode %d, %d answer records)", msg.Rcode, len(msg.Answer))
